@@ -37,6 +37,11 @@ class VProxy:
     __class__ = property(lambda self: Facade)
 
 
+class VStrObj(str):
+    """An object whose class derives from a scalar type and that has attributes of its own (an IntEnum member, a str
+    subclass carrying metadata): its type is VStrObj, its text is the text, its attributes are its children."""
+
+
 class VExc(Exception):
     def __init__(self, n):
         super().__init__()
@@ -55,7 +60,7 @@ class VSlots:
         return 'VSlots#%d' % self.n
 
 
-MUTABLE = {'list', 'dict', 'obj', 'exc', 'proxy'}
+MUTABLE = {'list', 'dict', 'obj', 'exc', 'proxy', 'sobj'}
 
 
 class Built:
@@ -101,6 +106,8 @@ def build(inst):
             b.objs[n] = VObj(n)
         elif k == 'proxy':
             b.objs[n] = VProxy(n)
+        elif k == 'sobj':
+            b.objs[n] = VStrObj('so%d' % n)
         elif k == 'exc':
             b.objs[n] = VExc(n)
         elif k == 'hostile':
@@ -131,7 +138,7 @@ def build(inst):
             for i, c in enumerate(ch):
                 b.objs[n]['k%d' % i] = c
             b.names[n] = ['k%d' % i for i in range(len(ch))]
-        elif k in ('obj', 'proxy'):
+        elif k in ('obj', 'proxy', 'sobj'):
             for i, c in enumerate(ch):
                 setattr(b.objs[n], 'a%d' % i, c)
             b.names[n] = ['a%d' % i for i in range(len(ch))]
@@ -318,7 +325,7 @@ def project(snapshot, built, nframes=1):
 
 def instance_header(inst, built):
     h = {k: inst[k] for k in ('kind', 'child', 'roots', 'maxVars', 'maxStr', 'maxColl', 'maxDepth')}
-    h['kind'] = ['str' if k == 'sstr' else 'obj' if k == 'proxy' else k for k in h['kind']]
+    h['kind'] = ['str' if k == 'sstr' else 'obj' if k in ('proxy', 'sobj') else k for k in h['kind']]
     h['slen'] = [built.slen[n] for n in range(1, len(inst['kind']) + 1)]
     h['watch'] = list(inst.get('watch', []))
     h['frames'] = [list(f) for f in inst.get('frames', [])]
@@ -350,7 +357,7 @@ def enumerate_small(n, kinds, max_child, max_roots, vars_set, str_set, coll_set,
 
 
 def random_instance(rng, max_nodes=12, kinds=('int', 'str', 'sstr', 'list', 'tuple', 'dict', 'obj', 'exc', 'hostile',
-                                               'proxy')):
+                                               'proxy', 'sobj')):
     n = rng.randint(1, max_nodes)
     kind, child, slen = [], [], []
     for i in range(1, n + 1):
